@@ -29,6 +29,13 @@ Verdict(e) ==
                        IF e.split.ok # s.ok \/ (s.ok /\ (e.split.val # s.val \/ e.split.pos # s.pos)) THEN "C38_netstring_malformed" ELSE ""
     [] e.ev = "ueb" -> IF e.enc # PackExtension(e.items) THEN "C38_ueb_pack"
                        ELSE IF ~e.back.ok \/ UnpackExtension(e.enc) # Accept(e.back.items) THEN "C38_ueb_unpack" ELSE ""
+    \* a share container of either on-disk version, written and then opened by a fresh reader: data and every lease record
+    \* decode to what was encoded (the record answers to its secrets, carries its expiry), a renewal rewrites that record
+    [] e.ev = "container" -> IF e.error # "" THEN "C38_container_raised"
+                       ELSE IF ~e.data_ok THEN "C38_container_data_roundtrip"
+                       ELSE IF ~e.count_ok \/ \E i \in 1..Len(e.leases) : ~(e.leases[i].renew_answers /\ e.leases[i].cancel_answers /\ e.leases[i].exp_ok)
+                              THEN "C38_container_lease_roundtrip"
+                       ELSE IF ~e.renew_ok THEN "C38_container_lease_rewrite" ELSE ""
     [] OTHER -> "unknown_event"
 
 TraceInit == tid \in 1..Len(Traces) /\ l = 1 /\ bad = "none"
